@@ -37,6 +37,31 @@ def classify(r, entry, src, target, extra=None, origin=None):
     return None
 
 
+def confirm_hang(entry, src, target, opts=None):
+    """A watchdog on a WELL-FORMED input (corpus / generated / feature program) of modest size is re-examined
+    in a fresh process with a 60 s limit: if the process burns >= 40 s of CPU on it without answering, that is
+    a hang (CPU time, not wall time, so a loaded machine cannot produce it; the same entry points answer
+    inputs of this size in milliseconds).  Malformed inputs are not judged this way: error recovery is known
+    to be exponential (KF-C12-3) and is measured by the size families instead."""
+    if len(src.encode("utf-8")) > 4096:
+        return None
+    w = core.Worker()
+    try:
+        if opts is not None:
+            req = {"op": "compile", "src": src, "target": target}
+            req.update(opts)
+            r = w.call(req, timeout=60.0)
+        else:
+            r = call_entry(w, entry, src, target, timeout=60.0)
+    finally:
+        w.close()
+    if "watchdog" in r and (r.get("cpu_s") or 0) >= 40.0:
+        return {"property": "C12", "symptom": "hang:cpu>=40s", "shape": entry + ":wellformed",
+                "witness": {"entry": entry, "src": src, "target": target, "opts": opts, "origin": "feature", "hang": True},
+                "detail": "no answer after 60 s, %.0f s of CPU used, input of %d bytes" % (r["cpu_s"], len(src))}
+    return None
+
+
 def _src_shard(items, targets):
     w = core.Worker()
     viols = []
@@ -51,6 +76,11 @@ def _src_shard(items, targets):
             obs["by_entry"][entry] = obs["by_entry"].get(entry, 0) + 1
             if "watchdog" in r:
                 obs["watchdog"] += 1
+                if origin in ("corpus", "grel") and obs.get("hang_confirmations", 0) < 3:
+                    obs["hang_confirmations"] = obs.get("hang_confirmations", 0) + 1
+                    hv = confirm_hang(entry, src, target)
+                    if hv:
+                        viols.append(hv)
                 continue
             if r.get("ok") is True:
                 obs["ok"] += 1
@@ -111,6 +141,12 @@ def _feat_shard(items, targets):
             obs["feature_calls"] += 1
             if "watchdog" in r:
                 obs["watchdog"] += 1
+                if obs.get("hang_confirmations", 0) < 3:
+                    obs["hang_confirmations"] = obs.get("hang_confirmations", 0) + 1
+                    hv = confirm_hang(entry, src, target, opts if kind == "compile" else None)
+                    if hv and (hv["symptom"], hv["shape"]) not in seen:
+                        seen.add((hv["symptom"], hv["shape"]))
+                        viols.append(hv)
                 continue
             if r.get("ok") is True:
                 obs["feature_ok"] += 1
@@ -332,6 +368,7 @@ def run(tier, seed):
         "requests run on the worker's main thread (8 MiB stack, the default a CLI user gets); stack exhaustion for any family size n <= 4096 is a violation, n > 4096 unexplored",
         "time bound decided on allocation count (deterministic): between successive doublings of a family the count may grow at most 16x and the local exponent w.r.t. input length must stay <= 3.2; the 10-20 s wall watchdog only yields 'inconclusive' for that size",
         "a returned Err must carry at least one error with a non-empty reason",
+        "hang: a well-formed input (corpus / generated / feature program) under 4 KiB that gets no answer within 10 s is re-run in a fresh process; >= 40 s of CPU time without an answer is a violation (at most 3 such confirmations per shard); watchdogs on malformed inputs stay inconclusive-counted",
     ]
     return run
 
@@ -346,6 +383,10 @@ def replay(case):
         w.close()
         v, _ = _family_shard([case["family"]], [case["entry"]])
         return v
+    if case.get("hang"):
+        w.close()
+        v = confirm_hang(case["entry"], src, case.get("target"), case.get("opts"))
+        return [v] if v else []
     if case.get("opts"):
         req = {"op": "compile", "src": src, "target": case.get("target")}
         req.update(case["opts"])
